@@ -2,6 +2,7 @@ package main
 
 import (
 	"flag"
+	"go/types"
 	"fmt"
 	"os"
 	"regexp"
@@ -9,6 +10,8 @@ import (
 	"strconv"
 	"strings"
 	"time"
+
+	"golang.org/x/tools/go/ssa"
 )
 
 var repoDir = "/repo"
@@ -39,6 +42,8 @@ func main() {
 		cmdCheck(os.Args[2:])
 	case "replay":
 		cmdReplay(os.Args[2:])
+	case "externals":
+		cmdExternals()
 	default:
 		usage()
 	}
@@ -220,5 +225,54 @@ func explainPath(vc *VC, o *Obligation) {
 			}
 		}
 		fmt.Printf("  path: b%d -> b%d (%s) %s\n", from, to, tb.Comment, pos)
+	}
+}
+
+// census of external callees of the library packages (for the effect table)
+func cmdExternals() {
+	p := mustLoad()
+	seen := map[string][]string{}
+	for _, k := range p.sortedFuncKeys() {
+		f := p.funcs[k]
+		if p.isTestFunc(f) || strings.HasPrefix(k, "cmd/") || strings.HasPrefix(k, "_examples") {
+			continue
+		}
+		for _, b := range f.Blocks {
+			for _, in := range b.Instrs {
+				ci, ok := in.(ssa.CallInstruction)
+				if !ok {
+					continue
+				}
+				c := ci.Common()
+				var name string
+				if c.IsInvoke() {
+					it := c.Value.Type().Underlying().(*types.Interface)
+					if len(p.implementers(it, c.Method.Name())) > 0 {
+						continue
+					}
+					name = "invoke " + types.TypeString(c.Value.Type(), nil) + "." + c.Method.Name()
+				} else if fn, ok := c.Value.(*ssa.Function); ok {
+					if fn.Pkg != nil && isModulePkg(fn.Pkg.Pkg) {
+						continue
+					}
+					name = fn.String()
+				} else if _, ok := c.Value.(*ssa.Builtin); ok {
+					continue
+				} else if _, ok := c.Value.(*ssa.MakeClosure); ok {
+					continue
+				} else {
+					name = "dynamic " + types.TypeString(c.Value.Type(), nil)
+				}
+				seen[name] = append(seen[name], k)
+			}
+		}
+	}
+	var names []string
+	for n := range seen {
+		names = append(names, n)
+	}
+	sort.Strings(names)
+	for _, n := range names {
+		fmt.Printf("%-60s %d  e.g. %s\n", n, len(seen[n]), seen[n][0])
 	}
 }
